@@ -508,8 +508,8 @@ pub fn two(seed: u64) -> Program {
     let mut main = vec![Op::Build { store: 0 }, Op::Build { store: 1 }, Op::AddSub { store: 0, sub: 0, reg: 0 }, Op::AddSub { store: 1, sub: 1, reg: 1 }];
     let mut regs = 2;
     // a subscriber object shared by both stores
-    if g.rng.chance(40) {
-        let kind = if g.rng.chance(50) { SubKind::Direct } else { SubKind::Selector };
+    if g.rng.chance(50) {
+        let kind = if g.rng.chance(40) { SubKind::Direct } else { SubKind::Selector };
         subs.push(SubCfg { kind, read_state: false, gate: None, sleep_ms: 0, shared: true });
         main.push(Op::AddSub { store: 0, sub: 2, reg: 2 });
         main.push(Op::AddSub { store: 1, sub: 2, reg: 3 });
